@@ -78,9 +78,11 @@ Definition ex2_script : list gcmd :=
                                  (TyString, VStr (q "Received")); (TyString, VStr (q "3"))])
          [ GAct (bs "fileinto") [(TyTag, VStr (bs ":copy")); (TyString, VStr (q "many hops"))] ] ].
 
+Ltac mlok := intros tail [->|(t & ->)]; vm_compute; reflexivity.
 Ltac argpr :=
   repeat (apply Forall_cons || apply Forall_nil);
-  first [ vm_compute; reflexivity | apply num_okb_ok; vm_compute; reflexivity
+  first [ vm_compute; reflexivity | left; vm_compute; reflexivity | right; split; [vm_compute; reflexivity|mlok]
+        | apply num_okb_ok; vm_compute; reflexivity
         | split; [discriminate | repeat (apply Forall_cons || apply Forall_nil); vm_compute; reflexivity] ].
 
 Example ex2_wf : exists L' ns, wf_cmds gen_tables [] None ex2_script ns L'.
@@ -114,6 +116,24 @@ Proof.
   vm_compute. lia.
 Qed.
 
+(* ---- a multi-line string: the line feed the serialiser writes after it is part of the layout *)
+
+Example ex_ml_printable : Forall cmd_pr ex_ml_script.
+Proof.
+  unfold ex_ml_script. repeat (apply Forall_cons || apply Forall_nil); apply pr_act; [vmr|argpr|vmr|argpr].
+Qed.
+
+Example ex_ml_roundtrip : forall ns L',
+  wf_cmds gen_tables [] None ex_ml_script ns L' ->
+  exists ns', parse gen_tables (tosieve_all 3 ns) = Accept ns' /\ Forall2 nsim ns' ns /\
+              tosieve_all 3 ns' = tosieve_all 3 ns.
+Proof.
+  intros ns L' Hwf.
+  apply (print_parse_general gen_tables ex2_tbl_ok twf_gen_tables ex_ml_script ns L' 3 Hwf ex_ml_printable); [discriminate|].
+  vm_compute. lia.
+Qed.
+
 Print Assumptions ex_canon.
 Print Assumptions ex2_roundtrip.
+Print Assumptions ex_ml_roundtrip.
 Print Assumptions ex_roundtrip.
